@@ -32,6 +32,14 @@ Sign(key32, msg, aux) ==
                e == Challenge(X32(R), pk32, msg)
            IN  << 1, X32(R) \o Scalar32(SAdd(k, SMul(e, d))) >>
 
+\* the exported nonce function (secp256k1_nonce_function_bip340): BIP-340's nonce derivation tagged with the caller's algo string
+\* ("BIP0340/nonce" for signatures); algo absent => failure.  aux = << >> means NULL, which behaves as 32 zero bytes.
+NonceFn(msg, key32, pk32, algo, hasAlgo, aux) ==
+  IF ~hasAlgo THEN << 0, << >> >>
+  ELSE LET a == IF Len(aux) = 0 THEN Zeros(32) ELSE aux
+           t == BXor(key32, TagHash(TagBip340Aux, a))
+       IN  << 1, TagHash(algo, t \o pk32 \o msg) >>
+
 \* signing with a caller-chosen nonce value nonce32 (custom nonce function returning it), as
 \* secp256k1_schnorrsig_sign_internal specifies: k = nonce mod n, failure iff k = 0
 SignWithNonce(key32, msg, nonce32) ==
